@@ -24,6 +24,7 @@ class Check:
         self.extra = {}
         self.rule = ""
         self.tlc_runs = []
+        self._confirmed = 0
         kf = os.path.join(VERIF, "known_findings.json")
         self.known = []
         self.fixed = []
@@ -55,8 +56,28 @@ class Check:
                 return k
         return None
 
-    def violation(self, sig, what, replay):
-        """sig: dict (abstract signature). Known findings are reported as such, others as violations."""
+    def violation(self, sig, what, replay, confirm=None):
+        """sig: dict (abstract signature). Known findings are reported as such, others as violations.
+        confirm: for scenarios that run on real sockets in real time (client timeouts of 0.1-0.3 s against a thread / asyncio
+        agent): a callable that re-runs the one scenario in isolation and returns True iff it fails again.  Such a failure is
+        reported only if it fails three times in a row - a stalled scheduler must not look like a defect.  After three
+        confirmed failures the rest of the run's failures are accepted without re-running."""
+        if confirm is not None and self._confirmed < 3:
+            for _ in range(2):
+                ok = False
+                try:
+                    ok = bool(confirm())
+                except ToolError:
+                    raise
+                except BaseException as e:  # noqa
+                    raise ToolError("confirmation run failed: %s: %s" % (type(e).__name__, e))
+                if not ok:
+                    self.extra["unconfirmed_failures"] = self.extra.get("unconfirmed_failures", 0) + 1
+                    self.extra.setdefault("unconfirmed_examples", [])
+                    if len(self.extra["unconfirmed_examples"]) < 5:
+                        self.extra["unconfirmed_examples"].append(what[:300])
+                    return False
+            self._confirmed += 1
         k = self._known_match(sig)
         if k is not None:
             kid = k["id"]
@@ -114,3 +135,21 @@ class Check:
               (self.pid, self.tier, self.states, self.transitions, self.traces, self.evaluations,
                len(self.distinct), wall))
         return 0
+
+
+def confirm_by_replay(replay_fn, replay_dict):
+    """confirm callable for Check.violation: re-runs the scenario through the check's own replay(path) (silently)"""
+    import tempfile, io, contextlib
+
+    def run():
+        with tempfile.NamedTemporaryFile("w", suffix=".json", delete=False) as f:
+            json.dump(dict(replay=replay_dict), f, default=str)
+            path = f.name
+        try:
+            buf = io.StringIO()
+            with contextlib.redirect_stdout(buf):
+                rc = replay_fn(path)
+            return rc == 1
+        finally:
+            os.unlink(path)
+    return run
